@@ -120,9 +120,15 @@ type SeqStep struct {
 	Dump     []CollEvs          `json:"dump"`     // per collection whose backfill changed: Dump feed from the path's start CAS
 	Aux      []AuxObs           `json:"aux"`      // other observers (query, views) that changed
 	Start    map[string]*CasRef `json:"start"`    // reset lines: backfill start CAS per collection
+	Dump2    []Dump2Obs         `json:"dump2"`    // backfill of the target collection from the highest CAS one of its documents has
 	Skiplive bool               `json:"skiplive"` // concurrent traces: feed deliveries are checked on the "feeds" line instead
 	P        string             `json:"p"`        // process that made the call
 	Shown    []*CasRef          `json:"shown"`    // CAS of the versions an Update-style callback was shown
+}
+type Dump2Obs struct {
+	C     string  `json:"c"`
+	Start *CasRef `json:"start"`
+	Evs   []Ev    `json:"evs"`
 }
 type PostDoc struct {
 	C string `json:"c"`
@@ -193,7 +199,7 @@ func (sr *seqRunner) runPath(trNo int, ops []GenOp) error {
 		startRefs[c] = tr.C(startCas[c])
 	}
 	tr.Add(SeqStep{K: "reset", Tr: trNo, Mode: env.mode, Coll: "-", Op: "-", A: x.emptyArgs(), R: Res{Cls: "ok", Body: NoBody(), Cas: tr.C(0)},
-		Post: []PostDoc{}, Live: []CollEvs{}, Dump: []CollEvs{}, Aux: []AuxObs{}, Start: startRefs, P: "-", Shown: []*CasRef{}})
+		Post: []PostDoc{}, Live: []CollEvs{}, Dump: []CollEvs{}, Aux: []AuxObs{}, Start: startRefs, P: "-", Shown: []*CasRef{}, Dump2: []Dump2Obs{}})
 	prevDoc := map[string]string{}
 	{
 		// fresh keys: the trace specification starts every path from "all absent"; only deviations are logged
@@ -220,7 +226,7 @@ func (sr *seqRunner) runPath(trNo int, ops []GenOp) error {
 		a, r := x.Exec(coll, env.h1, &gop)
 		a.Key = op.Key
 		step := SeqStep{K: "call", Tr: trNo, I: i + 1, Mode: env.mode, Coll: op.Coll, Op: op.Op, A: a, R: r,
-			Post: []PostDoc{}, Live: []CollEvs{}, Dump: []CollEvs{}, Aux: []AuxObs{}, Start: startRefs, P: "-", Shown: []*CasRef{}}
+			Post: []PostDoc{}, Live: []CollEvs{}, Dump: []CollEvs{}, Aux: []AuxObs{}, Start: startRefs, P: "-", Shown: []*CasRef{}, Dump2: []Dump2Obs{}}
 		if r.Cas != nil && r.Cas.raw > maxCas && r.Cls == "ok" && op.Op != "SetWithMeta" && op.Op != "DeleteWithMeta" {
 			maxCas = r.Cas.raw
 		}
@@ -284,6 +290,33 @@ func (sr *seqRunner) runPath(trNo int, ops []GenOp) error {
 					out = []Ev{}
 				}
 				step.Dump = append(step.Dump, CollEvs{C: c, Evs: out})
+			}
+		}
+		// a second backfill of the target collection, starting at the highest CAS one of its documents has
+		{
+			c := op.Coll
+			var top uint64
+			for _, k := range pathKeys {
+				if ki := x.known(c, k+suffix); ki.cur > top {
+					top = ki.cur
+				}
+			}
+			if top != 0 {
+				evs, err := dumpFeed(env.colls2[c], top, false)
+				if err != nil {
+					return fmt.Errorf("trace %d step %d dump2: %w", trNo, i+1, err)
+				}
+				out := []Ev{}
+				for j := range evs {
+					k := string(evs[j].Key)
+					if strings.HasPrefix(k, "~") {
+						continue
+					}
+					if evs[j].Opcode == sgbucket.FeedOpBeginBackfill || evs[j].Opcode == sgbucket.FeedOpEndBackfill || strings.HasSuffix(k, suffix) {
+						out = append(out, x.absEvent(&evs[j], absKey))
+					}
+				}
+				step.Dump2 = append(step.Dump2, Dump2Obs{C: c, Start: tr.C(top), Evs: out})
 			}
 		}
 		if sr.auxEvery > 0 {
